@@ -98,7 +98,23 @@ def c09_classify(inp, out):
 
 
 def c20_classify(inp, out):
-    ks = ["holder:" + out.split("|")[0].split(" ")[0], "verifier:" + out.split("|")[-1].split(" ")[0]]
+    if inp.startswith("sd|"):
+        _, spec, req = inp.split("|")
+        names = [p.split(".")[-1] for p in req.split(",")]
+        return ["entry:sdjwt", "sd:" + out.split(" ")[0], "requested:%d" % min(len(names), 4),
+                "samename:" + ("yes" if len(set(names)) < len(names) or any(spec.count(n + "=") > 1 for n in names) else "no")]
+    dims = []
+    d = inp.split("|")[0]
+    for tag, what in (("/s1", "schema:required-behind"), ("/s2", "schema:required-first"), ("/s3", "schema:none-required"),
+                      ("/f1", "format:jwt"), ("/f2", "format:ldp"), ("/f3", "format:jwt-other-alg")):
+        if tag in d:
+            dims.append(what)
+    nc = inp.split("|C:")[-1].count(";") + 1 if inp.split("|C:")[-1] else 0
+    if nc > 10:
+        dims.append("creds:more-than-ten")
+    if "vparray" in out:
+        dims.append("vparray:" + out.split("|")[-1].split(" ")[0])
+    ks = dims + ["holder:" + out.split("|")[0].split(" ")[0], "verifier:" + out.split("|")[-1].split(" ")[0]]
     r = inp.split("|")[1]
     ks.append("req:" + ("none" if r == "R:-" else ("nested" if "[" in r else "flat")))
     for k in ("count=", "min=", "max=", "pick", "all"):
@@ -290,13 +306,14 @@ PROPS = {
                                      [w for w in out.split(" ") if w.startswith(("neg=", "honest=", "dec=", "back=", "padded="))],
         "nontrivial": lambda inp, out: "neg=fail" in out or "neg=ok" in out or "back=same" in out,
         "thorough_seeds": 2,
+        "case_timeout": 900,   # a BLS signature over 65 537 messages takes about a minute, several under load
         "rule": "signatures: 8 creatable signing key types (+ secp256k1 DER, refused) x created / imported keys x six message "
                 "shapes (empty, 1 byte, 64 KiB) x verification through the key's own public handle, through the exported and "
                 "re-imported public key of ANOTHER key manager, and through signature/verifier.PublicKeyVerifier x altered "
                 "input (other message, bit flip anywhere, truncation, appended byte, zero-padded P1363 halves, other key); MAC "
                 "likewise; AEAD: five key types x messages x associated data x 0-2 rotations after encrypting x altered "
                 "ciphertext / nonce / associated data / other key / nonce of another encryption / empty nonce; secp256k1 codecs "
-                "on scalars with leading zero bytes; non-trivial = an altered input was judged or a codec round trip ran",
+                "on scalars with leading zero bytes; BLS12-381 G2 multi-message signatures through SignMulti / VerifyMulti (1..70 messages; 257, 65537, 65540 in the thorough tier; message changed / two messages exchanged / dropped / appended, other key, flipped signature bit); " "non-trivial = an altered input was judged or a codec round trip ran",
         "trusted_base": ["ideal primitives (a body opens only with its key, nonce and associated data; only produced signatures "
                          "verify)", "Tink and Go crypto implementations", "DER codec checked by correspondence only (no Lean proof)"],
         "assumptions": ["RSA key types are verify-side only in this framework and not driven here; BLS12-381 is C17",
@@ -481,12 +498,12 @@ PROPS = {
         "lean_files": ["AriesVerif/C20/Model.lean", "AriesVerif/C20/Props.lean", "AriesVerif/C20/Drv.lean"],
         "lake_targets": ["AriesVerif"],
         "classify": c20_classify,
-        "nontrivial": lambda inp, out: out.startswith("vp "),
+        "nontrivial": lambda inp, out: out.startswith("vp ") or out.startswith("ok shown="),
         "thorough_seeds": 2,
         "rule": "generated definitions (2-5 input descriptors in groups A-C with exists / const / pattern / minimum field constraints, "
                 "submission requirements none | all | pick with count / min / max, nested up to depth 2, several top-level requirements) x "
                 "generated credential sets (0-4 credentials incl. near misses: attribute present with the wrong value or type); real "
-                "CreateVP then Match on the marshalled presentation; schema lists with a required entry in any position and degree credentials; the answer also as a presentation array matched with the merged submission (up to 13 credentials); the wallet query engine asked for two definitions; " "non-trivial = a presentation was created; distinct (input, outcome) pairs",
+                "CreateVP then Match on the marshalled presentation; schema lists with a required entry in any position and degree credentials; the answer also as a presentation array matched with the merged submission (up to 13 credentials); the wallet query engine asked for two definitions; " "format requirements on descriptors (jwt_vc / ldp_vc) over mixed lists of JWT, LDP and plain credentials; " "SD-JWT credentials (two subject objects and subject members, equal claim names in different objects) under limit_disclosure: the display credential of what Match returns shows exactly the requested fields; " "non-trivial = a presentation was created; distinct (input, outcome) pairs",
         "trusted_base": ["gval/jsonpath and gojsonschema (constraint evaluation is the predicate credMatches of the driver, for the "
                          "generator's four filter kinds)", "unsigned JSON-LD credentials (proof check disabled on the verifier side)"],
         "assumptions": ["v1-style definitions with a schema uri matched by every generated credential (the verifier validates schemas by default)",
